@@ -469,11 +469,26 @@ def exactScalar : FieldDecl → Bool
   | .enumCls _ names => !names.isEmpty
   | _ => false
 
+/-- the exact fragment at field level: exact scalars, and homogeneous `Array[X]` / `Tuple[X]` (no
+    `uniqueItems`, any size bounds) over it, at any depth.  Positional items, sized or key-constrained
+    Maps are NOT exact (findings exact:positional-shorter, exact:map-size, exact:map-key-constraint) -/
+def exactF : FieldDecl → Bool
+  | .seqOf k f sz => k == .list && !sz.uniq && exactF f
+  | .tupleOf f u => !u && exactF f
+  | .number o => exactScalar (.number o)
+  | .integer o => exactScalar (.integer o)
+  | .float o => exactScalar (.float o)
+  | .string lo hi pat => exactScalar (.string lo hi pat)
+  | .boolean => true
+  | .enumLit vs => exactScalar (.enumLit vs)
+  | .enumCls c names => exactScalar (.enumCls c names)
+  | _ => false
+
 def exactFields : List (String × FieldDecl) → Bool
   | [] => true
-  | (_, f) :: ps => exactScalar f && exactFields ps
+  | (_, f) :: ps => exactF f && exactFields ps
 
-/-- flat classes over exact scalar fields, no defaults, not a field wrapper -/
+/-- flat classes over the exact field fragment (scalars, Array[X], Tuple[X]), no defaults, not a field wrapper -/
 def inExactFragment (cls : FieldDecl) : Bool :=
   match cls with
   | .struct c fields defaults =>
